@@ -91,6 +91,7 @@ func lg(s string) *Expr       { return &Expr{K: 'G', X: s} }
 func er(s string) *Expr       { return &Expr{K: 'E', X: s} }
 func ext(k string) *Expr      { return &Expr{K: 'X', X: k} }
 func del(x string) *Expr      { return &Expr{K: 'D', X: x} }
+func cerr(e *Expr) *Expr      { return &Expr{K: 'K', Sub: []*Expr{e}} } // catch(e).err
 func seq(es ...*Expr) *Expr {
 	if len(es) == 1 {
 		return es[0]
@@ -220,6 +221,8 @@ func (e *Expr) src(s *Session) string {
 		return "(time.now()>0)"
 	case 'D':
 		return "del(" + e.X + ")"
+	case 'K':
+		return "catch(" + e.Sub[0].src(s) + ").err"
 	}
 	panic("bad expr")
 }
@@ -262,6 +265,8 @@ func (e *Expr) enc() string {
 		return "X " + e.X
 	case 'D':
 		return "D " + Hx([]byte(e.X))
+	case 'K':
+		return "K " + e.Sub[0].enc()
 	}
 	panic("bad expr")
 }
@@ -374,7 +379,7 @@ func closedFn(d *Def) bool {
 	self := func(x string) bool { return x == "self" || (d.Name != "" && x == d.Name) }
 	seen := map[string]bool{}
 	for _, p := range d.Params {
-		if constantName(p) || self(p) || p == "info" || seen[p] {
+		if constantName(p) || self(p) || p == "info" || p == ".." || seen[p] {
 			return false
 		}
 		seen[p] = true
@@ -757,6 +762,19 @@ func corpus() []*Session {
 		s.Writers, s.Callers = []int{nx.D}, []int{tw.D, tt.D}
 		s.Inputs = []*Expr{asg("g", lam(0)), asg("nx", nx), cn("nx"), cn("nx"), cn("nx"), cn("g"), asg("tw", tw), asg("tt", tt), cn("tw"), cn("tw"), cn("tt"), cn("tt"),
 			cn("nx"), cn("g")}
+	})
+	// variadic spread must not change the key under which the result is stored
+	mk("regress:variadic-spread-key", func(s *Session) {
+		s.Inputs = []*Expr{asg("f", s.fn("", []string{"p", ".."}, seq(prt(lit(vs("called"))), v("..")))), cn("f", li(1), lit(va(va(vi(5))))), cn("f", li(1), lit(va(vi(5)))),
+			cn("f", li(1), li(5)), cn("f", li(1), lit(va(va(vi(5))))), asg("g", s.fn("", []string{".."}, arr(v(".."), v("..")))), cn("g", lit(va(va(vi(1), vi(2))))), cn("g", lit(va(vi(1), vi(2)))),
+			cn("g", li(1), li(2)), cn("g"), cn("f")}
+	})
+	// an unbound identifier swallowed by catch() must not be remembered
+	mk("regress:unbound-identifier-in-catch", func(s *Session) {
+		f := s.fn("", nil, cerr(add(li(1), v("a"))))
+		k := s.fn("", nil, iff(cerr(add(li(1), v("A"))), li(-1), add(li(1), v("A"))))
+		s.Writers = []int{f.D}
+		s.Inputs = []*Expr{asg("f", f), cn("f"), cn("f"), asg("a", li(2)), cn("f"), del("a"), cn("f"), asg("k", k), cn("k"), asg("A", li(2)), cn("k"), cn("k")}
 	})
 	// mechanism: output replay, errors, DontCache, > MaxArgs, unhashable, fib
 	mk("mech:print-replay", func(s *Session) {
@@ -1230,6 +1248,135 @@ func (c *Ctx2) toggleSession() *Session {
 	return s
 }
 
+// variadic callees whose last argument is an array / a nested array / a scalar: calls that differ only in nesting must
+// not share a cache entry (the spread must not reach the caller's argument list, which is the key)
+func (c *Ctx2) variadicSession() *Session {
+	s := &Session{Tag: "random-variadic"}
+	r := c.R
+	named := r.Bool()
+	params := []string{".."}
+	if named {
+		params = []string{"p", ".."}
+	}
+	var body *Expr
+	switch r.Intn(4) {
+	case 0:
+		body = v("..")
+	case 1:
+		body = seq(prt(lit(vs("c"))), v(".."))
+	case 2:
+		body = seq(prt(v("..")), li(0))
+	default:
+		if named {
+			body = arr(v("p"), v(".."))
+		} else {
+			body = arr(v(".."), v(".."))
+		}
+	}
+	if r.Bool() {
+		s.Inputs = append(s.Inputs, s.fn("vf", params, body))
+	} else {
+		s.Inputs = append(s.Inputs, asg("vf", s.fn("", params, body)))
+	}
+	pool := []Val{va(va(vi(5))), va(vi(5)), vi(5), va(), va(va()), va(vi(1), vi(2)), va(va(vi(1), vi(2))), va(va(vi(1)), vi(2)), vs("a"), va(vs("a"))}
+	call := func(name string) *Expr {
+		last := lit(pool[r.Intn(len(pool))])
+		var args []*Expr
+		if named && !r.Pct(8) {
+			args = append(args, li(1))
+		}
+		switch r.Intn(10) {
+		case 0: // no variadic argument at all
+		case 1:
+			args = append(args, last, lit(pool[r.Intn(len(pool))]))
+		default:
+			args = append(args, last)
+		}
+		return cn(name, args...)
+	}
+	through := r.Pct(40)
+	if through { // the nesting arrives through a caller's parameter / an outer variable
+		s.Inputs = append(s.Inputs, asg("w", s.fn("", []string{"q"}, cn("vf", li(1), v("q")))), asg("y", lit(va(vi(5)))),
+			asg("wy", s.fn("", nil, cn("vf", li(1), v("y")))))
+	}
+	for i, n := 0, 6+r.Intn(8); i < n; i++ {
+		switch {
+		case through && r.Pct(30):
+			s.Inputs = append(s.Inputs, cn("w", lit(pool[r.Intn(3)])))
+		case through && r.Pct(15):
+			s.Inputs = append(s.Inputs, cn("wy"))
+		case through && r.Pct(10):
+			s.Inputs = append(s.Inputs, asg("y", lit(pool[r.Intn(3)])))
+		default:
+			s.Inputs = append(s.Inputs, call("vf"))
+		}
+	}
+	return s
+}
+
+// a function that reads a global inside catch(): unbound at first, bound between two calls, deleted again
+func (c *Ctx2) catchSession() *Session {
+	s := &Session{Tag: "random-catch"}
+	r := c.R
+	name := []string{"a", "A", "g"}[r.Intn(3)] // variable, constant, function
+	var probe, bind *Expr
+	switch name {
+	case "g":
+		probe, bind = cn("g"), asg("g", s.fn("", nil, li(2)))
+		if r.Bool() {
+			bind = s.fn("g", nil, li(2))
+		}
+	default:
+		probe, bind = add(li(1), v(name)), asg(name, li(2))
+	}
+	var body *Expr
+	switch r.Intn(3) {
+	case 0:
+		body = cerr(probe)
+	case 1:
+		body = iff(cerr(probe), li(-1), probe)
+	default:
+		body = seq(prt(cerr(probe)), li(7))
+	}
+	var f *Expr
+	if r.Bool() {
+		f = s.fn("f", nil, body)
+	} else {
+		f = asg("f", s.fn("", nil, body))
+	}
+	fd := f
+	if fd.K == 'A' {
+		fd = fd.Sub[0]
+	}
+	if name == "a" { // unbound = a miss (failed lookup), bound = a miss (mutable variable): never remembered
+		s.Writers = append(s.Writers, fd.D)
+	}
+	s.Inputs = append(s.Inputs, f)
+	names := []string{"f"}
+	if r.Bool() {
+		h := asg("h", s.fn("", nil, add(cn("f"), li(1))))
+		if body.K == 'K' {
+			h = asg("h", s.fn("", nil, iff(cn("f"), li(0), li(1))))
+		}
+		if name == "a" {
+			s.Callers = append(s.Callers, h.Sub[0].D)
+		}
+		s.Inputs = append(s.Inputs, h)
+		names = append(names, "h")
+	}
+	calls := func() {
+		for i, n := 0, 2+r.Intn(2); i < n; i++ {
+			s.Inputs = append(s.Inputs, cn(names[r.Intn(len(names))]))
+		}
+	}
+	calls()
+	s.Inputs = append(s.Inputs, bind)
+	calls()
+	s.Inputs = append(s.Inputs, del(name))
+	calls()
+	return s
+}
+
 func runC04(c0 *Ctx) {
 	c := &Ctx2{Ctx: c0, seen: map[string]int{}}
 	log.SetOutput(io.Discard)
@@ -1245,7 +1392,7 @@ func runC04(c0 *Ctx) {
 		"oracle: no call of such a writer or of its callers may appear in the cache); each run cache on and cache off on the implementation (direct oracle) and on the extracted model. " +
 		"non-trivial = distinct session that ends with a non-empty cache"
 	// every identifier the generator uses must be free in a fresh state (not an extension, not a predefined function)
-	for _, name := range []string{"f", "g", "h", "id", "mk", "a", "b", "c", "d", "w", "k", "x", "y", "t", "n", "m", "p", "q", "r", "s", "X", "N", "F", "fib", "f2", "k4", "v", "nx", "tw", "tt", "m"} {
+	for _, name := range []string{"f", "g", "h", "id", "mk", "a", "b", "c", "d", "w", "k", "x", "y", "t", "n", "m", "p", "q", "r", "s", "X", "N", "F", "fib", "f2", "k4", "v", "nx", "tw", "tt", "m", "vf", "wy", "A"} {
 		st := eval.NewState()
 		st.Out, st.LogOut = io.Discard, io.Discard
 		res, _ := evalProtected(st, parser.New(lexer.New(name)).ParseProgram())
@@ -1273,6 +1420,12 @@ func runC04(c0 *Ctx) {
 			c.session(c.redefSession())
 		case 4:
 			c.session(c.toggleSession())
+		case 5:
+			if i%20 == 5 {
+				c.session(c.variadicSession())
+			} else {
+				c.session(c.catchSession())
+			}
 		default:
 			c.session(c.randomSession(false))
 		}
